@@ -9,6 +9,7 @@ import (
 	"net/http"
 	"net/http/httptest"
 	"net/url"
+	"strconv"
 	"strings"
 	"sync"
 	"time"
@@ -97,6 +98,15 @@ func (r *remote) serve(rw http.ResponseWriter, req *http.Request) {
 	case "identity":
 		// credential: gc.<shape>.<subject>.<nonce>
 		f := strings.Split(strings.TrimPrefix(req.Header.Get("Authorization"), "Bearer "), ".")
+		if len(f) == 4 && f[0] == "gc" && (f[1] == "400" || f[1] == "403" || f[1] == "422") {
+			// the identity provider refuses the credential with another client error than 401
+			code, _ := strconv.Atoi(f[1])
+			rw.WriteHeader(code)
+			rw.Write([]byte(`{"error":"refused"}`))
+
+			return
+		}
+
 		if len(f) != 4 || f[0] != "gc" || (f[1] != "good" && f[1] != "noprofile") {
 			rw.WriteHeader(http.StatusUnauthorized)
 			rw.Write([]byte(`{"error":"unauthorized"}`))
